@@ -84,3 +84,23 @@ Example C08_column_round_example :
   SqlCol.parse_col (SqlCol.emit_col (SqlCol.parse_col (SqlCol.emit_col p))) = SqlCol.parse_col (SqlCol.emit_col p)
   /\ SqlCol.p_doc (SqlCol.parse_col (SqlCol.emit_col p)) = Some (s2l "the unit, in m/s etc").
 Proof. exact SqlColRoundProofs.col_round_example. Qed.
+
+(* ---- the Google and NumPy docstring formats at text level (Model/GoogleEmit.v, Model/NumpyEmit.v and the parse side of C01's
+   whole-docstring theorems, each compared with the code each run): for EVERY clean description and every non-empty list of entries
+   of the domain, writing what was parsed back gives the text that was written first. *)
+From CDD Require GoogleLine GoogleScan GoogleEmit GoogleEmitProofs NumpyScan NumpyEmit NumpyEmitProofs StyleFixpointProofs.
+Theorem C08_google_text_fixpoint : forall doc es,
+  RestDocProofs.clean doc = true -> es <> [] -> forallb GoogleScanProofs.entry_ok1 es = true -> forallb GoogleEmitProofs.documented es = true ->
+  match GoogleScan.google_docstring (GoogleEmit.emit_google doc es) with
+  | (doc', GoogleLine.PList ps) => GoogleEmit.emit_google doc' (map StyleFixpointProofs.reembed ps) = GoogleEmit.emit_google doc es
+  | _ => False
+  end.
+Proof. exact StyleFixpointProofs.google_text_fixpoint. Qed.
+Print Assumptions C08_google_text_fixpoint.
+Theorem C08_numpy_text_fixpoint : forall doc es,
+  RestDocProofs.clean doc = true -> GoogleLineProofs.lacks NumpyScanProofs.DASH doc = true -> es <> [] ->
+  forallb NumpyScanProofs.nentry_ok1 es = true -> forallb NumpyEmitProofs.ends_visible es = true ->
+  let r := NumpyScan.numpy_docstring (NumpyEmit.emit_numpy doc (map NumpyEmitProofs.as_entry es)) in
+  NumpyEmit.emit_numpy (fst r) (map StyleFixpointProofs.reembed_n (snd r)) = NumpyEmit.emit_numpy doc (map NumpyEmitProofs.as_entry es).
+Proof. exact StyleFixpointProofs.numpy_text_fixpoint. Qed.
+Print Assumptions C08_numpy_text_fixpoint.
